@@ -67,8 +67,12 @@ def gen_cases(ctx):
                 S = []
             else:
                 S = rng.sample(ids, rng.randint(1, len(ids)))
+            if S and kind in ("list", "tuple", "generator", "iterator") and rng.random() < 0.25:
+                # atoms named more than once (S flattened from bonds / rings); sometimes exactly n_atoms entries long
+                S = S + [rng.choice(S) for _ in range(rng.choice([1, 2, max(0, len(ids) - len(S))]))]
+                rng.shuffle(S)
             subs.append([kind, S])
-        yield {"cls": cls, "pg": pg_to_json(pg), "subsets": subs, "cover": ("components", "partition", "overlap")[(i // 4) % 3], "pseed": rng.randrange(1 << 30), "pieces_as": rng.choice(["list", "tuple"])}
+        yield {"cls": cls, "pg": pg_to_json(pg), "subsets": subs, "cover": ("components", "partition", "overlap")[(i // 4) % 3], "pseed": rng.randrange(1 << 30), "pieces_as": rng.choice(["list", "tuple", "generator", "iterator"])}
     yield from _scale_cases(ctx, rng)
 
 
@@ -199,7 +203,8 @@ def check_case(ctx, case):
     want = sem.pg_union(piece_pgs, cls)
     ctx.case((sem.canon_key(pg), cover, len(parts)), len(parts) >= 2)
     ctx.count("composes")
-    seq = pieces if case["pieces_as"] == "list" else tuple(pieces)
+    seq = {"list": list, "tuple": tuple, "generator": lambda p_: (x for x in p_), "iterator": iter}[case["pieces_as"]](pieces)
+    ctx.count(f"pieces_as:{case['pieces_as']}")
     try:
         comp = Cls.compose(seq)
     except Exception as e:  # noqa: BLE001
